@@ -94,13 +94,17 @@ class Fixture:
         return p
 
 
+# a complete JSON value followed by something else is not a JSON text
+TRAILING_GARBAGE = ['{"a": 1}\n{"b": 2}', '{"a": 1}}', '[] []', '1 2', 'null,', '{} x', '"s" "t"', '{"p": 1, "q": 1}]', 'true false', '{}\n\n{}', '[1],']
+
+
 def build(fx, rng, schema_state, inst_states, schema_obj=None, draft_kw=None):
     """Create the files.  Returns (schema_path, schema_value_or_None, [(path, state, value)])."""
     sval = None
     if schema_state == "missing":
         sp = fx.path("schema_missing")
     elif schema_state == "notjson":
-        sp = fx.write("schema_notjson", rng.choice(["{not json", "", "[1, 2", "{'a': 1}"]))
+        sp = fx.write("schema_notjson", rng.choice(["{not json", "", "[1, 2", "{'a': 1}"] + TRAILING_GARBAGE))
     elif schema_state == "invalid":
         sval = rng.choice(BAD_SCHEMAS)
         sp = fx.write("schema_invalid", json.dumps(sval))
@@ -114,7 +118,7 @@ def build(fx, rng, schema_state, inst_states, schema_obj=None, draft_kw=None):
         if st == "missing":
             insts.append((fx.path("inst_missing"), st, None))
         elif st == "notjson":
-            insts.append((fx.write("inst_notjson", rng.choice(["{oops", "[1,", "nul", ""])), st, None))
+            insts.append((fx.write("inst_notjson", rng.choice(["{oops", "[1,", "nul", ""] + TRAILING_GARBAGE)), st, None))
         elif st == "valid":
             v = rng.choice(VALID)
             insts.append((fx.write("inst_valid", json.dumps(v)), st, v))
@@ -315,7 +319,7 @@ def one(ctx, root, rng, n, schema_state, inst_states, mode, validator_opt=None, 
             st = inst_states[0]
             val = rng.choice(VALID) if st == "valid" else INVALID[rng.choice([1, 2, 4, 6, 8, 9, 10])]
             # (not JSON: a fragment - or nothing at all, or only white space)
-            stdin_text = json.dumps(val) if st in ("valid", "invalid") else rng.choice(["{nope", "", "   \n", "\t", "\n\n"])
+            stdin_text = json.dumps(val) if st in ("valid", "invalid") else rng.choice(["{nope", "", "   \n", "\t", "\n\n"] + TRAILING_GARBAGE[:4])
             if st == "notjson" and not stdin_text.strip():
                 ctx.count("blank_stdin_fixtures")
             insts = [("<stdin>", st, val if st in ("valid", "invalid") else None)]
